@@ -62,14 +62,16 @@ def run(ctx):
         as_matrix = equal and rng.random() < 0.4
         data = np.array(ss, dtype=float) if as_matrix else [np.array(s, dtype=float) for s in ss]
         snapshot = [np.array(s, dtype=float) for s in ss]
-        wit = dict(series=ss, k=k, options=dict(opts), init=init, seed=seed, drop_stddev=drop, max_it=max_it, ndim=nd,
+        wit = dict(series=ss, k=k, options=dict(opts), init=init, seed=seed, drop_stddev=drop, max_it=max_it, ndim=nd, thr=None,
                    parallel=parallel, container="matrix" if as_matrix else "list")
+        thr = rng.choice([0.0001, 0.0001, 0.05, 0.2, 0.5, 1.0])     # coarse thresholds stop on "no change in means"
         kwargs = dict(k=k, max_it=max_it, max_dba_it=rng.choice([1, 3, 10]), drop_stddev=drop, dists_options=dict(opts),
-                      show_progress=False)
+                      show_progress=False, thr=thr)
         if init == "random":
             kwargs["initialize_with_kmeanspp"] = False
         elif init == "pp_sample":
             kwargs["initialize_sample_size"] = rng.randint(1, max(1, n - k))
+        wit["thr"] = thr
         trace = []
 
         def monitor(cd, final):
